@@ -9,7 +9,9 @@ from ..engine.pyindex import walk_no_nested
 ID = 'C41'
 TECHNIQUE = ('path-sensitive save/restore dataflow on the directive-tracking visitors, table-key agreement of the directive tables, finite-kind dispatch evaluation of the directive value parser, scoped-read lint; '
              'path conditions (pyflow) of default stores evaluated as truth tables over the complete value domain of the directive; def-use agreement of the compared and the updated mapping of the decorator filter; '
-             'ordered-writer extraction for the layered module directives')
+             'ordered-writer extraction for the layered module directives, for copy_inherited_directives and for the header-comment parser; decision tables (checker-owned evaluator) of the boolean '
+             'value parser over the string partition its comparisons induce and of check_directive_scope over Options.directive_scopes x the scope vocabulary; guard dominance of the contents store; '
+             'iteration order vs merge policy of the decorator stack; save/restore typestate of generator context managers')
 DECIDES = ('V3: InterpretCompilerDirectives.visit_with_directives and CythonTransform.visit_CompilerDirectivesMixin restore the saved directives on every normal exit; '
            'TABKEYS: keys of directive_scopes, directive_types and immediate_decorator_directives are known directives; L4: every directive key read anywhere is known; '
            'L5: every kind of directive value reachable through parse_directive_list is parsed or rejected with ValueError; '
@@ -18,9 +20,18 @@ DECIDES = ('V3: InterpretCompilerDirectives.visit_with_directives and CythonTran
            'when the user gave no value - the path condition is unsatisfiable for every explicit value class of the directive (bool: False and True; None only where None is the documented default); '
            'C41-RUN: the "does not change the previous value" filter of InterpretCompilerDirectives compares with the same mapping it updates on the keep path, and that mapping is a private copy; '
            'C41-LAYER: InterpretCompilerDirectives builds the module-level mapping in the order defaults (base) < compilation options (overriding write) < header comments (overriding write) '
-           'and hands that mapping to the module node.')
+           'and hands that mapping to the module node; '
+           'C41-BOOLTAB: parse_directive_value maps True/False (relaxed mode: the words it knows, in any letter case) to the boolean they spell, rejects the empty string / non-words with ValueError, '
+           'strict mode accepts the two documented spellings only, relaxed mode agrees with strict mode; '
+           'C41-SCOPE: check_directive_scope(directive, scope) is True exactly for the scopes Options.directive_scopes lists (everywhere for unlisted directives) and reports an error otherwise '
+           '(52 listed directives x 6 scopes); C41-UNKNOWN: parse_directive_list raises for a name that is no directive unless the leniency flag the header parser passes is set; '
+           'C41-CONTENTS: a directive reaches the mapping for the *contents* of a decorated object only on paths that exclude Options.immediate_decorator_directives, and the node wrapped around the '
+           'body carries the mapping built from **contents_directives; C41-INHERIT: copy_inherited_directives returns a private copy of the outer mapping overridden by the new directives; '
+           'C41-HEADER: every parsed `# cython:` line is merged into the mapping p_compiler_directive_comments returns; C41-DECORDER: bottom-up iteration over the decorators with last-wins merging '
+           '(or the mirror image): the decorator written first wins; C41-CTX: generator context managers that rebind an attribute of their argument (apply_directives: obj.directives) restore it after the yield.')
 NOT_DECIDED = ('the precedence of header / command line / cythonize options as far as it is established outside the sites above (CmdLine parsing, Dependencies merging per-module options, '
-               'the order in which a decorator stack is walked and merged), and everything observed at run time.')
+               'accumulation of repeated -X options), the meaning of repeated list-typed directives (accumulate vs replace), which of warning / error a repeated header directive gets, '
+               'the scope literal each visit_* handler passes to check_directive_scope, non-boolean value parsers (int / one_of / encoding names), and everything observed at run time.')
 
 
 MUTATIONS = [
@@ -37,6 +48,7 @@ MUTATIONS = [
     ('Cython/Compiler/ParseTreeTransforms.py', '__init__: base = copy of the options, then `directives.update(defaults)`', 'C41-LAYER: caught (order)'),
     ('Cython/Compiler/ParseTreeTransforms.py', 'visit_ModuleNode: `self.directives.update(node.directive_comments)` -> loop with setdefault', 'C41-LAYER: caught'),
     ('Cython/Compiler/ParseTreeTransforms.py', 'visit_ModuleNode: the update of the header comments removed', 'C41-LAYER: caught (missing layer)'),
+    # --- fourth round: see /verif/mutants/C41/*/meta.json (29 mutants: 20 breaking, 9 behaviour preserving), replayed by the thorough tier
     # behaviour preserving (all silent)
     ('Cython/Compiler/Options.py', "configure_language_defaults: early-return form, local alias `d = self.compiler_directives`, `'binding' not in d or d['binding'] is None`", None),
     ('Cython/Compiler/Options.py', "configure_language_defaults: `self.compiler_directives.setdefault('binding', True)` (None is not an explicit value of binding)", None),
@@ -107,4 +119,5 @@ def rule_scoped_reads(ctx):
 
 def run(ctx):
     return [scoped.rule_V3_attr(ctx), rule_tabkeys(ctx), crash.rule_L4(ctx), crash.rule_L5(ctx), rule_scoped_reads(ctx),
-            sC41.rule_UDEF(ctx), sC41.rule_RUN(ctx), sC41.rule_LAYER(ctx)]
+            sC41.rule_UDEF(ctx), sC41.rule_RUN(ctx), sC41.rule_LAYER(ctx),
+            sC41.rule_BOOLTAB(ctx), sC41.rule_SCOPE(ctx), sC41.rule_CONTENTS(ctx), sC41.rule_INHERIT(ctx), sC41.rule_HEADER(ctx), sC41.rule_DECORDER(ctx), sC41.rule_CTX(ctx), sC41.rule_UNKNOWN(ctx)]
